@@ -88,7 +88,7 @@ impl futures_core::Stream for Items {
 }
 
 #[derive(Clone, Debug)]
-enum Call { Read(usize), ReadVec(usize, usize), ReadExact(usize), ReadToString, FillBuf, Consume(usize), Seek(u8, i64), StreamPos, Write(usize), WriteVec(usize, usize), Flush,
+enum Call { ReadToEnd(usize), Read(usize), ReadVec(usize, usize), ReadExact(usize), ReadToString, FillBuf, Consume(usize), Seek(u8, i64), StreamPos, Write(usize), WriteVec(usize, usize), Flush,
             ARead(usize), AFill, AConsume(usize), ASeek(u8, i64), AWrite(usize) }
 
 fn seek_from(kind: u8, d: i64) -> SeekFrom { match kind { 0 => SeekFrom::Start(d.unsigned_abs()), 1 => SeekFrom::End(d), _ => SeekFrom::Current(d) } }
@@ -102,6 +102,7 @@ fn apply<T: Read + BufRead + Seek + Write + tokio::io::AsyncRead + tokio::io::As
         Call::Read(n) => { let mut b = vec![0u8; *n]; let r = o.read(&mut b); (format!("{} {:?}", res(&r), &b), r.map_or(Expect::Same, |k| Expect::Add(k as u64))) }
         Call::ReadVec(a, b2) => { let mut x = vec![0u8; *a]; let mut y = vec![0u8; *b2]; let r = { let mut bufs = [IoSliceMut::new(&mut x), IoSliceMut::new(&mut y)]; o.read_vectored(&mut bufs) }; (format!("{} {:?} {:?}", res(&r), x, y), r.map_or(Expect::Same, |k| Expect::Add(k as u64))) }
         Call::ReadExact(n) => { let mut b = vec![0u8; *n]; let r = o.read_exact(&mut b); (format!("{}", res(&r)), if r.is_ok() { Expect::Add(*n as u64) } else { Expect::Unknown }) }
+        Call::ReadToEnd(pre) => { let mut v = vec![b'#'; *pre]; let r = o.read_to_end(&mut v); (format!("{} {v:?}", res(&r)), Expect::Add((v.len() - *pre) as u64)) }   // bytes appended, also when an error ends the call
         Call::ReadToString => { let mut s = String::new(); let r = o.read_to_string(&mut s); (format!("{} {s:?}", res(&r)), if let Ok(k) = r { Expect::Add(k as u64) } else { Expect::Unknown }) }
         Call::FillBuf => { let r = o.fill_buf().map(|b| b.to_vec()); *last_fill = r.as_ref().map_or(0, |b| b.len()); (res(&r), Expect::Same) }
         Call::Consume(n) => { let k = (*n).min(*last_fill); BufRead::consume(o, k); *last_fill -= k; ("()".into(), Expect::Add(k as u64)) }
@@ -125,6 +126,7 @@ fn token(c: &Call, r: &str, exp: Expect, last_fill: usize) -> String {
     let outcome = |r: &str| -> String { if r.starts_with("ok:") { let d: String = r[3..].chars().take_while(|ch| ch.is_ascii_digit()).collect(); format!("ok {}", if d.is_empty() { "0".into() } else { d }) } else if r.starts_with("pending") { "pending".into() } else { "err".into() } };
     let status = |r: &str| -> &'static str { if r.starts_with("ok:") { "ok" } else if r.starts_with("pending") { "pending" } else { "err" } };
     match c {
+        Call::ReadToEnd(_) => format!("t ok {}", if let Expect::Add(k) = exp { k } else { 0 }),
         Call::Read(_) | Call::ReadVec(..) | Call::ReadToString | Call::Write(_) | Call::WriteVec(..) | Call::AWrite(_) => format!("t {}", outcome(r)),
         Call::ReadExact(n) => format!("rx {n} {}", status(r)),
         Call::ARead(_) => format!("pr {} {}", if let Expect::Add(k) = exp { k } else { 0 }, status(r)),
@@ -142,7 +144,8 @@ fn gen_plan(rng: &mut Rng) -> Vec<Plan> { (0..rng.range(1, 6)).map(|_| match rng
 fn io_case(rng: &mut Rng) -> (String, String) {
     let data: Vec<u8> = (0..rng.below(40)).map(|_| b'a' + rng.below(26) as u8).collect();
     let obj = Obj { data, pos: 0, plan: gen_plan(rng), call: 0, cap: rng.range(1, 8) as usize, sink: vec![], seek_to: None };
-    let calls: Vec<Call> = (0..rng.range(1, 14)).map(|_| match rng.below(16) {
+    let calls: Vec<Call> = (0..rng.range(1, 14)).map(|_| match rng.below(17) {
+        16 => Call::ReadToEnd(*rng.pick(&[0usize, 0, 1, 4, 16])),
         0 => Call::Read(rng.below(10) as usize), 1 => Call::ReadVec(rng.below(5) as usize, rng.below(5) as usize), 2 => Call::ReadExact(rng.below(6) as usize), 3 => Call::ReadToString,
         4 => Call::FillBuf, 5 => Call::Consume(rng.below(9) as usize), 6 => Call::Seek(rng.below(3) as u8, rng.below(50) as i64 - 10), 7 => Call::StreamPos,
         8 => Call::Write(rng.below(10) as usize), 9 => Call::WriteVec(rng.below(5) as usize, rng.below(5) as usize), 10 => Call::Flush,
@@ -217,6 +220,56 @@ fn iter_case(rng: &mut Rng) -> (String, String) {
     (case, verdict)
 }
 
+/// counts what is pulled out of the underlying iterator, however the caller consumes the wrapper
+#[derive(Clone)]
+struct Counted { n: usize, next: usize, pulled: std::sync::Arc<std::sync::atomic::AtomicUsize> }
+impl Iterator for Counted {
+    type Item = usize;
+    fn next(&mut self) -> Option<usize> { if self.next < self.n { self.next += 1; self.pulled.fetch_add(1, std::sync::atomic::Ordering::SeqCst); Some(self.next - 1) } else { None } }
+    fn size_hint(&self) -> (usize, Option<usize>) { (self.n - self.next, Some(self.n - self.next)) }
+}
+impl ExactSizeIterator for Counted {}
+impl DoubleEndedIterator for Counted {
+    fn next_back(&mut self) -> Option<usize> { if self.next < self.n { self.n -= 1; self.pulled.fetch_add(1, std::sync::atomic::Ordering::SeqCst); Some(self.n) } else { None } }
+}
+
+/// every way of consuming a wrapped iterator through the adaptor methods of `Iterator`: the caller sees the
+/// same items as without the wrapper and the position equals the number of items pulled from the source
+fn iter_modes_case(rng: &mut Rng) -> (String, String) {
+    let n = rng.below(14) as usize;
+    let k = rng.range(1, 6) as usize;
+    let mode = rng.below(11);
+    let name = ["next", "nth-loop", "step_by", "skip", "last", "count", "take", "rev", "nth-once", "zip-short", "skip-take"][mode as usize];
+    let run = |it: &mut dyn FnMut() -> Box<dyn Iterator<Item = usize>>| -> Vec<usize> { it().collect() };
+    let _ = run;
+    let consume = |it: Box<dyn DoubleEndedIterator<Item = usize>>| -> Vec<usize> {
+        let mut it = it;
+        match mode {
+            0 => it.collect(),
+            1 => { let mut v = Vec::new(); while let Some(x) = it.nth(k - 1) { v.push(x); } v }
+            2 => it.step_by(k).collect(),
+            3 => it.skip(k).collect(),
+            4 => it.last().into_iter().collect(),
+            5 => vec![it.count()],
+            6 => it.take(k).collect(),
+            7 => it.rev().collect(),
+            8 => it.nth(k).into_iter().collect(),
+            9 => it.zip(0..k).map(|(a, _)| a).collect(),
+            _ => it.skip(k).take(2).collect(),
+        }
+    };
+    let bare_pulled = std::sync::Arc::new(std::sync::atomic::AtomicUsize::new(0));
+    let bare = consume(Box::new(Counted { n, next: 0, pulled: bare_pulled.clone() }));
+    let pulled = std::sync::Arc::new(std::sync::atomic::AtomicUsize::new(0));
+    let pb = ProgressBar::with_draw_target(None, ProgressDrawTarget::hidden()).with_finish(ProgressFinish::Abandon);
+    let got = consume(Box::new(pb.wrap_iter(Counted { n, next: 0, pulled: pulled.clone() })));
+    let (p, b) = (pulled.load(std::sync::atomic::Ordering::SeqCst), bare_pulled.load(std::sync::atomic::Ordering::SeqCst));
+    let verdict = if got != bare { format!("FAIL not-transparent iterator {name}({k}) over {n} items: {got:?} vs {bare:?}") }
+        else if p != b { format!("FAIL not-transparent iterator {name}({k}) over {n} items pulls {p} items from the source, {b} without the wrapper") }
+        else if pb.position() != p as u64 { format!("FAIL miscount iterator {name}({k}) over {n} items: position {} after {p} items were pulled", pb.position()) } else { "ok".into() };
+    (format!("ITERMODE {name} k={k} n={n}"), verdict)
+}
+
 fn rayon_case(rng: &mut Rng) -> (String, String) {
     use rayon::prelude::*;
     let n = *rng.pick(&[0usize, 1, 2, 3, 7, 64, 100, 1000, 4097]);
@@ -246,5 +299,6 @@ pub fn run(seed: u64, tier: &str, out: &mut Out) {
     let n = if tier == "thorough" { 200_000 } else { 4_000 };
     for _ in 0..n { let (c, v) = io_case(&mut rng); out.emit(&c, &v); }
     for _ in 0..n / 4 { let (c, v) = iter_case(&mut rng); out.emit(&format!("NOMODEL {c}"), &format!(" ORACLE {v}")); }
+    for _ in 0..n / 4 { let (c, v) = iter_modes_case(&mut rng); out.emit(&format!("NOMODEL {c}"), &format!(" ORACLE {v}")); }
     for _ in 0..n / 40 { let (c, v) = rayon_case(&mut rng); out.emit(&format!("NOMODEL {c}"), &format!(" ORACLE {v}")); }
 }
